@@ -35,5 +35,8 @@ A result is always "holds for every value **within** the stated bound", never
 d=d.replace(old_status,new_status)
 if '9. As built' not in d[:d.find('## 0. Summary')]:
     d=d.replace('8. Repository hooks and commits\n','8. Repository hooks and commits\n9. As built: machinery, bounds, findings, false alarms, seeded changes (authoritative)\n',1)
+note='> **As built:** the table below is the plan. The bounds that are actually registered, what each check decides and what it does not are in section 9.2; C12 is the only property listed as not applicable.\n\n'
+if '**As built:**' not in d:
+    d=d.replace('## 0. Summary\n\n','## 0. Summary\n\n'+note,1)
 open('/verif/DESIGN.md','w').write(d)
 print("DESIGN.md rebuilt,",len(d.splitlines()),"lines")
